@@ -89,6 +89,11 @@ type H struct {
 	nPushOK, nPush, nForeign, nHostile, nListed, nFetchOK, nRefused int
 	sizeVariant                                                      bool // a descriptor with the digest of a subject and another size was used
 	reopen                                                           string
+	// caller-owned objects handed to consecutive calls as the SAME object (half of the histories)
+	share      bool
+	sharedAnn  map[string]string
+	sharedDesc map[string]ocispec.Descriptor // decorated descriptor (its Annotations map, Platform pointer) per triple
+	frameSeen  map[string]bool
 }
 
 type envRec struct {
@@ -101,6 +106,9 @@ func runHistory(id int64, rng *Rng, tier, base string, total int) (out *histOut)
 		dgs: map[string]int64{"": 0, string(digest.FromString("{}")): 1},
 		mts: map[string]int64{"": 0, mtImage: 1, mtArtifact: 2, mtIndex: 3, mtDMan: 4, mtDList: 5, registry.ArtifactTypeNotation: 6, mtOctet: 7},
 		strs: map[string]int64{keyCreated: 1}, tags: map[string]bool{}, lastList: map[string][]string{}}
+	h.share = id%2 == 0
+	h.sharedDesc = map[string]ocispec.Descriptor{}
+	h.frameSeen = map[string]bool{}
 	dir, err := os.MkdirTemp(base, "vh-c19-*")
 	if err != nil {
 		panic(err)
@@ -321,18 +329,15 @@ func (h *H) pushSig(mt string, blob []byte, subj ocispec.Descriptor, an map[stri
 	h.nPush++
 	var bd, md ocispec.Descriptor
 	var err error = errors.New("panicked")
-	// the caller's map must not be touched: hand over a copy and compare
-	var given map[string]string
-	if an != nil {
-		given = map[string]string{}
-		for k, v := range an {
-			given[k] = v
-		}
-	}
+	// frame: the caller's annotation map, envelope bytes and subject descriptor are handed over
+	// themselves (not copies), snapshotted before and compared after the call
+	given := an
+	an = copyAnn(given) // what the call was given, for the case term
+	preAnn, preSubj, preBlob := snap(given), snap(subj), append([]byte(nil), blob...)
 	h.guard("PushSignature", func() { bd, md, err = h.repo.PushSignature(h.ctx, mt, blob, subj, given) })
-	if !sameAnn(given, an) {
-		h.viol = append(h.viol, "annotations-mutated: PushSignature changed the caller's annotation map")
-	}
+	h.frame("the annotations map handed to PushSignature", preAnn, snap(given))
+	h.frame("the subject descriptor handed to PushSignature", preSubj, snap(subj))
+	h.frame("the envelope bytes handed to PushSignature", string(preBlob), string(blob))
 	cls := pushClass(err)
 	now, mdg, msz := "0", "0", "0"
 	cvalid := true
@@ -360,6 +365,33 @@ func (h *H) pushSig(mt string, blob []byte, subj ocispec.Descriptor, an map[stri
 	h.obs = append(h.obs, res)
 	h.human = append(h.human, fmt.Sprintf("PushSignature(%q, %d bytes sha256:%s.., subject %s, %d annotations) -> class %d %v", mt, len(blob), hex.EncodeToString(sha256sum(blob))[:8], short(subj), len(an), cls, errStr(err)))
 	h.addQuery(subj)
+}
+
+func snap(v any) string {
+	b, err := json.Marshal(v)
+	if err != nil {
+		panic(err)
+	}
+	return string(b)
+}
+
+func copyAnn(m map[string]string) map[string]string {
+	if m == nil {
+		return nil
+	}
+	c := make(map[string]string, len(m))
+	for k, v := range m {
+		c[k] = v
+	}
+	return c
+}
+
+// frame records a mutation of a caller-owned object by the library.
+func (h *H) frame(what, before, after string) {
+	if before != after && !h.frameSeen[what] {
+		h.frameSeen[what] = true
+		h.viol = append(h.viol, "frame: library mutated caller-owned "+what)
+	}
 }
 
 func sha256sum(b []byte) []byte { s := sha256.Sum256(b); return s[:] }
@@ -410,12 +442,26 @@ func (h *H) list(q ocispec.Descriptor) []ocispec.Descriptor {
 	h.flog = h.flog[:0]
 	var got []ocispec.Descriptor
 	var err error = errors.New("panicked")
+	preQ := snap(q)
 	h.guard("ListSignatures", func() {
 		err = h.repo.ListSignatures(h.ctx, q, func(ms []ocispec.Descriptor) error {
-			got = append(got, ms...)
+			for i := range ms {
+				m := ms[i]
+				m.Annotations = copyAnn(m.Annotations)
+				got = append(got, m)
+				// the caller then scribbles over what it was handed: later listings must not show it
+				if ms[i].Annotations != nil {
+					for k := range ms[i].Annotations {
+						delete(ms[i].Annotations, k)
+					}
+					ms[i].Annotations["scribbled-by-caller"] = "x"
+				}
+				ms[i] = ocispec.Descriptor{MediaType: "scribbled", Size: -7}
+			}
 			return nil
 		})
 	})
+	h.frame("the descriptor handed to ListSignatures", preQ, snap(q))
 	cls := 0
 	if err != nil {
 		switch {
@@ -454,7 +500,17 @@ func (h *H) fetch(d ocispec.Descriptor) {
 	var blob []byte
 	var bd ocispec.Descriptor
 	var err error = errors.New("panicked")
+	preD := snap(d)
 	h.guard("FetchSignatureBlob", func() { blob, bd, err = h.repo.FetchSignatureBlob(h.ctx, d) })
+	h.frame("the descriptor handed to FetchSignatureBlob", preD, snap(d))
+	defer func() { // the caller scribbles over the returned bytes and descriptor: later fetches must not show it
+		for i := range blob {
+			blob[i] ^= 0xff
+		}
+		for k := range bd.Annotations {
+			delete(bd.Annotations, k)
+		}
+	}()
 	cls := 0
 	if err != nil {
 		msg := err.Error()
